@@ -340,12 +340,18 @@ READERS = {
 }
 
 
+def _reader(ctx, q):
+    if q == HEX + "._get_proof":
+        return util.proof_walker(ctx)[0]  # the accumulating recursion, or the generator that replaced it
+    return ctx.P.func(q)
+
+
 @rule("EFF4", list(READERS))
 def eff4(ctx, pid):
     """The transitive effect summary of a reader contains no write on an object that outlives the call."""
     S = ctx.E.summaries()
     for q in READERS[pid]:
-        f = ctx.P.func(q)
+        f = _reader(ctx, q)
         effs = [e for e in S[f.qual] if e.op != "R" and util.real(e) and e.loc[0][0] != "local"]
         # 'local' roots are objects whose origin the alias layer could not classify: report separately
         loc_effs = [e for e in S[f.qual] if e.op != "R" and e.loc is not None and e.loc[0][0] in ("local", "unknown")
@@ -424,7 +430,7 @@ def rsrc(ctx, pid):
     an answer that comes from any other attribute is a cache / memo whose freshness nothing in the property covers."""
     from .. import spec
     seen_funcs = set()
-    work = [ctx.P.func(q) for q in READERS[pid]]
+    work = [_reader(ctx, q) for q in READERS[pid]]
     while work:
         f = work.pop()
         if f.qual in seen_funcs:
